@@ -199,7 +199,14 @@ class Run:
 
     def classify(self):
         """-> 'ok' | 'violation' | 'inconclusive'"""
+        tcfg = self.unit.get(self.tier, {})
+        limit = self.timeout or tcfg.get("timeout_s", 900)
         if self.rc == 0:
+            # rapid stops generating cases shortly before -test.timeout and still reports OK:
+            # a run that used (almost) its whole time budget did not do the requested work
+            if getattr(self, "wall", 0) > 0.9 * limit:
+                self.out += "\nVERIF-INCONCLUSIVE: run used %.0fs of its %ds budget (rapid may have stopped early)\n" % (self.wall, limit)
+                return "inconclusive"
             return "ok"
         o = self.out
         if self.timed_out or "panic: test timed out" in o or "VERIF-INCONCLUSIVE" in o:
